@@ -12,6 +12,7 @@ THEOREMS = [
     "Vinegar.C04.opens_only_translated",
     "Vinegar.C04.nonregular_not_found",
     "Vinegar.C04.unauthorised_or_unmatched_opens_nothing",
+    "Vinegar.C04.c04Check_model",
 ]
 TRUSTED_BASE = P.TRUSTED_BASE
 ASSUMPTIONS = P.ASSUMPTIONS
